@@ -2449,14 +2449,41 @@ func (s *Store) waitForLinearizableRead(currReadTerm uint64, linearizableTimeout
 		lt = linearizableTimeout
 	}
 
-	// Now, wait for it.
-	ch := s.fsmTarget.Subscribe(readIndex)
+	// Now, wait for it. Only Command log entries are passed to the FSM, so wait
+	// for the latest Command entry at or below the read index to be applied. The
+	// read index itself may refer to a configuration change, no-op, or barrier
+	// entry, which the FSM index never reaches.
+	ch := s.fsmTarget.Subscribe(s.fsmWaitIndex(readIndex))
 	select {
 	case <-ch:
 		return nil
 	case <-time.After(lt):
 		return fmt.Errorf("index %d: %w", readIndex, ErrWaitForFSMTimeout)
 	}
+}
+
+// fsmWaitIndex returns the index the FSM must reach before every Command log
+// entry at or below idx has been applied to the database. That is the index of
+// the latest Command entry at or below idx, unless the FSM is already past it.
+func (s *Store) fsmWaitIndex(idx uint64) uint64 {
+	fsmIdx := s.fsmIdx.Load()
+	for idx > fsmIdx {
+		var l raft.Log
+		if err := s.raftLog.GetLog(idx, &l); err != nil {
+			if err == raft.ErrLogNotFound {
+				// The entry has been compacted away, so it -- and everything
+				// before it -- is covered by a snapshot this FSM created or
+				// was restored from.
+				return fsmIdx
+			}
+			return idx
+		}
+		if l.Type == raft.LogCommand {
+			return idx
+		}
+		idx--
+	}
+	return idx
 }
 
 func (s *Store) isStaleRead(freshness int64, strict bool) bool {
